@@ -751,6 +751,28 @@ pub fn build(ctx: &Ctx) -> Property {
     length_imitating::<backends::V3L>(&mut p, ctx);
     length_imitating::<backends::V4>(&mut p, ctx);
     length_imitating::<backends::V4S>(&mut p, ctx);
+    // what the tag / signature covers is the specification's pre-authentication encoding of the pieces, at every
+    // length of every piece (the oracle of C15's adapter subs, shared): an encoding that is exact is injective, so
+    // no re-cut of the same bytes into other pieces can keep the tag — also for re-cuts no fault class above builds
+    {
+        let before = p.subs.len();
+        crate::c15::adapters::<backends::V1>(&mut p, false);
+        crate::c15::adapters::<backends::V2>(&mut p, false);
+        crate::c15::adapters::<backends::V3>(&mut p, false);
+        crate::c15::adapters::<backends::V3L>(&mut p, false);
+        crate::c15::adapters::<backends::V4>(&mut p, false);
+        crate::c15::adapters::<backends::V4S>(&mut p, false);
+        // keep the exactness subs, not the sequence subs (those belong to C15)
+        let mut i = before;
+        while i < p.subs.len() {
+            if p.subs[i].name.starts_with("adapter-sequences/") {
+                p.subs.remove(i);
+            } else {
+                p.subs[i].name = format!("authenticated-input-is-pae/{}", p.subs[i].name.trim_start_matches("adapters/"));
+                i += 1;
+            }
+        }
+    }
     noassert::<backends::V1>(&mut p);
     noassert::<backends::V2>(&mut p);
     p.assume("ECDSA (r, n-s) malleability is not a single-bit change and is outside the fault set, as is any multi-bit forgery: the fault classes are exactly those the statement lists");
